@@ -50,6 +50,8 @@ func checkC12(c *Ctx) {
 	c.autoPacketIDNonZero()
 	c.forwardedIDs()
 	c.closuresCompleteOnce()
+	// what goes out has the length Len() says and the bytes the encoder counted (T1 length tables, B14)
+	c.codecLengthTables()
 }
 
 // senders: methods of service that write a request into the ring and register it in an ack queue.
